@@ -9,7 +9,7 @@
   Definitions used in the statements (all in `Proofs/SpanParser.lean`, namespace `Rbql.SpanParser`):
   `bracketRun` (the bracket stack machine alone), `Balanced`, `NoRootComma`, `spaces n` (n ASCII spaces), `letter isB` (`a`/`b`),
   `natDigits n` (`(toString n).toList`), `STAR`/`LITP` (the star marker / the string-literal placeholder prefix), `markerOf`,
-  `isIdent`, `isAliasIdent`, `isAsKw`, `isDigits`, `isFieldVar`, `escName` / `jsEscapeColumnName` / `isQuoted`, `textKind`, `itemsMatchTexts`.
+  `LastVisible`, `isIdent`, `isAliasIdent`, `isAsKw`, `isDigits`, `isFieldVar`, `escName` / `jsEscapeColumnName` / `isQuoted`, `textKind`, `itemsMatchTexts`.
   Items classified `.other` get the positional name `colK`: that is `C07_names` (third conjunct) of `Theorems/C07.lean`.
 -/
 import Rbql.Proofs.SpanParser
@@ -27,21 +27,49 @@ attribute [local instance] exceptDecEq
 /-! ### 1. span splitting is exact -/
 
 /-- Guarantee 1 of `adhoc_parse_select_expression_to_column_infos`: joining balanced texts without root-level commas by commas
-and splitting again gives back exactly the (trimmed) texts; in particular there are as many spans as items. -/
+and splitting again gives back exactly the (trimmed) texts, minus an empty LAST span when there is more than one span (the
+empty span after a trailing comma is not an element of the array literal `[…]` the select list becomes; repair 9447a17). -/
 theorem C07_root_spans_exact (items : List Str) (hne : items ≠ [])
     (hbal : ∀ t ∈ items, Balanced t = true) (hnc : ∀ t ∈ items, NoRootComma t = true) :
+    rootSpans (joinD [','] items) = .ok (dropTrailingEmptySpan (items.map jsTrim)) :=
+  rootSpans_join items hne hbal hnc
+
+/-- …and when the last item is not blank (or there is a single item; `LastVisible`), nothing is dropped: the spans are the
+trimmed items, and there are as many spans as items. -/
+theorem C07_root_spans_exact_visible (items : List Str) (hne : items ≠ [])
+    (hbal : ∀ t ∈ items, Balanced t = true) (hnc : ∀ t ∈ items, NoRootComma t = true) (hlast : LastVisible items = true) :
     rootSpans (joinD [','] items) = .ok (items.map jsTrim) ∧
     (∀ spans, rootSpans (joinD [','] items) = .ok spans → spans.length = items.length) := by
-  have h := rootSpans_join items hne hbal hnc
+  have h := rootSpans_join_visible items hne hbal hnc hlast
   refine ⟨h, ?_⟩
   intro spans hs
   rw [h] at hs
   cases hs
   simp
 
+/-- A trailing comma, optionally followed by spaces, is not an item: it changes nothing.  (Before the repair `select a1, a2,`
+gave a three-name header for two-field records.) -/
+theorem C07_trailing_comma_not_an_item (items : List Str) (hne : items ≠ [])
+    (hbal : ∀ t ∈ items, Balanced t = true) (hnc : ∀ t ∈ items, NoRootComma t = true) (hlast : LastVisible items = true)
+    (k : Nat) : rootSpans (joinD [','] items ++ [','] ++ spaces k) = rootSpans (joinD [','] items) :=
+  rootSpans_trailing_comma items hne hbal hnc hlast k
+
+/-- the regression instance: `select a1, a2,` -/
+theorem C07_trailing_comma_regression :
+    rootSpans "a1, a2,".toList = .ok ["a1".toList, "a2".toList] ∧
+    rootSpans "a1, a2, ".toList = .ok ["a1".toList, "a2".toList] ∧
+    adhocColumnInfos "a1, a2,".toList [] = .ok [.field false 0, .field false 1] ∧
+    (translateSelectJs "a1, a2,".toList).toOption.map (·.2) = some "a1, a2,".toList := by decide
+
+/-- only ONE trailing empty span is dropped: `a1,,` gives the two spans `a1` and the empty one, as JavaScript's `[a1,,]` has
+length 2 (one hole).  This is also why `C07_trailing_comma_not_an_item` needs a visible last item. -/
+theorem C07_double_trailing_comma_keeps_one_hole :
+    rootSpans "a1,,".toList = .ok ["a1".toList, []] ∧ rootSpans "a1,".toList = .ok ["a1".toList] ∧
+    rootSpans ",".toList = .ok [[]] ∧ rootSpans [] = .ok [[]] := by decide
+
 private def exItems : List Str := ["f(a1, [1,2])".toList, " {x: (1, 2)} ".toList, "a2".toList]
 example : exItems ≠ [] ∧ (∀ t ∈ exItems, Balanced t = true) ∧ (∀ t ∈ exItems, NoRootComma t = true) ∧
-    rootSpans (joinD [','] exItems) = .ok ["f(a1, [1,2])".toList, "{x: (1, 2)}".toList, "a2".toList] := by decide
+    LastVisible exItems = true ∧ rootSpans (joinD [','] exItems) = .ok ["f(a1, [1,2])".toList, "{x: (1, 2)}".toList, "a2".toList] := by decide
 
 /-- The error side: an unmatched closing bracket (the prefix before it is fine and leaves a stack whose top does not match, or
 an empty stack) is reported with that bracket; an unclosed opening bracket is reported with the OUTERMOST unclosed bracket
@@ -207,7 +235,8 @@ example : escName '\'' "\\'".toList = "\\\\\\'".toList ∧
 answers with one info per text, a star info exactly for the star markers (so the infos are `aligned` with every engine select
 list built according to the kinds of the texts), and the header has `Σ width` names. -/
 theorem C07_text_to_header_width (texts : List Str) (hne : texts ≠ []) (lits : List Str)
-    (htexts : ∀ t ∈ texts, (∃ x, t = markerOf x) ∨ (Balanced t = true ∧ NoRootComma t = true)) :
+    (htexts : ∀ t ∈ texts, (∃ x, t = markerOf x) ∨ (Balanced t = true ∧ NoRootComma t = true))
+    (hlast : LastVisible texts = true) :
     ∃ infos, adhocColumnInfos (joinD [','] texts) lits = .ok infos ∧
       infos = texts.map (fun t => colInfoOfSpan t lits) ∧
       infos.length = texts.length ∧
@@ -219,7 +248,7 @@ theorem C07_text_to_header_width (texts : List Str) (hne : texts ≠ []) (lits :
     rcases htexts t ht with ⟨x, rfl⟩ | h
     · exact marker_balanced x
     · exact h
-  refine ⟨_, adhocColumnInfos_join texts hne lits (fun t ht => (hb t ht).1) (fun t ht => (hb t ht).2), rfl, by simp,
+  refine ⟨_, adhocColumnInfos_join texts hne lits (fun t ht => (hb t ht).1) (fun t ht => (hb t ht).2) hlast, rfl, by simp,
     fun items hi => aligned_of_itemsMatchTexts items texts lits hi, ?_⟩
   intro ih jh h hh
   rw [C07_header_width ih jh _ ih.length jh.length rfl rfl h hh, List.map_map]
@@ -228,18 +257,24 @@ theorem C07_text_to_header_width (texts : List Str) (hne : texts ≠ []) (lits :
   intro t _
   exact colInfoOfSpan_width t lits _ _
 
+/-- Why `LastVisible` is needed: a blank LAST text is not an item (it is the nothing after a trailing comma), so the texts
+`["a1", ""]` (`select a1,`) get ONE info — a two-item select list built from these two texts could not be aligned. -/
+theorem C07_text_blank_last_counterexample :
+    adhocColumnInfos (joinD [','] ["a1".toList, []]) [] = .ok [.field false 0] ∧ LastVisible ["a1".toList, []] = false ∧
+    (∀ t ∈ ["a1".toList, []], Balanced t = true ∧ NoRootComma t = true) := by decide
+
 /-- End to end for the JS port: header (computed from the TEXT of the select list) and records (computed by the engine from the
 select ITEMS) have the same width, whenever the items were built according to the kinds of the texts. -/
 theorem C07_text_header_matches_records (texts : List Str) (hne : texts ≠ []) (lits : List Str)
     (htexts : ∀ t ∈ texts, (∃ x, t = markerOf x) ∨ (Balanced t = true ∧ NoRootComma t = true))
-    (items : List SItem) (hitems : itemsMatchTexts items texts)
+    (hlast : LastVisible texts = true) (items : List SItem) (hitems : itemsMatchTexts items texts)
     (infos : List ColInfo) (hinfos : adhocColumnInfos (joinD [','] texts) lits = .ok infos)
     (inputHeader joinHeader : List Str) (e : Env) (hna : e.a.length = inputHeader.length)
     (hnb : (e.b.getD []).length = joinHeader.length)
     (h : List Str) (hh : selectOutputHeader (some inputHeader) (some joinHeader) infos = .ok (some h))
     (row : Row) (un : Option (Nat × List Atom)) (hr : evalItems items e = .ok (row, un)) :
     h.length = row.length := by
-  obtain ⟨infos', h1, _, _, hal, _⟩ := C07_text_to_header_width texts hne lits htexts
+  obtain ⟨infos', h1, _, _, hal, _⟩ := C07_text_to_header_width texts hne lits htexts hlast
   rw [h1] at hinfos
   have hi : infos' = infos := by injection hinfos
   subst hi
@@ -247,7 +282,7 @@ theorem C07_text_header_matches_records (texts : List Str) (hne : texts ≠ []) 
 
 private def exTexts : List Str :=
   ["__RBQL_INTERNAL_STAR".toList, " f(a1, a2) as s".toList, "b.__RBQL_INTERNAL_STAR".toList, "a[___RBQL_STRING_LITERAL0___]".toList]
-example : exTexts ≠ [] ∧
+example : exTexts ≠ [] ∧ LastVisible exTexts = true ∧
     (∀ t ∈ exTexts, (t = markerOf none ∨ t = markerOf (some true)) ∨ (Balanced t = true ∧ NoRootComma t = true)) ∧
     exTexts.map textKind = [.starAll, .nonStar, .starB, .nonStar] ∧
     adhocColumnInfos (joinD [','] exTexts) ["'n'".toList] = .ok [.star none, .alias "s".toList, .star (some true), .named "n".toList] := by
